@@ -73,6 +73,19 @@ CHECKS = {
         design_ref='DESIGN.md section 9 C09',
         note=BASE_NOTE + 'struct and the cp437 codec are CPython; the debug section is an opaque blob.',
         technique='Lean 4 round-trip theorems over generated tables + parsing the real module bytes with the model'),
+    'C04': dict(
+        category='proof',
+        text='Theorems over Model/Layout.lean, unbounded in rank, bounds, nesting and number of declarations: two variables of '
+             'a frame occupy disjoint ranges inside the frame; every field (any nesting depth) lies inside its record and '
+             'diverging field paths are disjoint; the row-major element offset is injective on in-bounds subscripts and '
+             'inside the array; store/read frame laws; unset reads default; reading is pure (the unrepaired readidx is a '
+             'machine-checked counterexample); by-reference parameters alias exactly, by-value parameters get fresh distinct '
+             'temporaries; fresh locals. Model tied to memlayout / get_dotted_index / _exec_arridx on random shapes; the '
+             'real VM is checked with sentinel programs (write all, read back in another order) and aliasing/recursion/STATIC '
+             'programs.',
+        design_ref='DESIGN.md section 9 C04',
+        note=BASE_NOTE + 'The VM memory model is the abstract Mem/bindParams of Model/Layout.lean (tied to the code by the sentinel runs).',
+        technique='Lean 4 theorems over an executable layout model + model/implementation correspondence'),
 }
 
 PENDING = ('not yet decided by the Lean framework in this commit; design in DESIGN.md section 9, implementation order in '
